@@ -227,6 +227,8 @@ class ExprMixin:
                             note=f"{h.cls} object has no attribute '{attr}' on this path")
                 raise PathEnd("attr")
             if isinstance(h, VSeq):
+                if attr in ("ndim", "shape", "dtype", "device", "T"):
+                    return [(st, self.seq_data_attr(h, attr, node))]
                 f_ = VFunc(f"list.{attr}", self.list_method(base, attr))
                 f_.any_args = attr in ("view", "reshape")
                 return [(st, f_)]
@@ -246,6 +248,8 @@ class ExprMixin:
         if isinstance(base, VModule):
             return [(st, self.module_attr(base, attr, node))]
         if isinstance(base, VSeq):
+            if attr in ("ndim", "shape", "dtype", "device", "T"):
+                return [(st, self.seq_data_attr(base, attr, node))]
             f_ = VFunc(f"seq.{attr}", self.seq_method(base, attr))
             f_.any_args = attr in ("view", "reshape")
             return [(st, f_)]
@@ -422,6 +426,13 @@ class ExprMixin:
                 r = r * x
             return [(st, VInt(r))]
         raise Unsupported(f"operator {type(op).__name__}", node)
+
+    def seq_data_attr(self, sq, attr, node):
+        """data attributes of tensors / arrays are values, not methods (a method object would compare unequal to everything):
+        ndim of a sequence of scalars is 1 (only the leading dimension is modelled); anything else is outside the subset"""
+        if attr == "ndim" and isinstance(sq.etype, (TInt, TReal, TBool)):
+            return VInt(1)
+        raise Unsupported(f"seq.{attr} (data attribute of a tensor / array)", node)
 
     def ev_BoolOp(self, node, st):
         is_and = isinstance(node.op, ast.And)
